@@ -3,7 +3,7 @@ import itertools
 import zlib
 import numpy as np
 from harness import coqio as Q
-from harness.impl import poke, coded_cube, decode, exc_name, family_wcs, lin_offsets, wcs_lockstep_fail, FAMILIES
+from harness.impl import poke, coded_cube, decode, exc_name, family_wcs, lin_offsets, wcs_lockstep_fail, FAMILIES, family_corr
 
 CORR = "C01_corr"
 MODEL_FILES = ["Model/M_Slicing.v", "Base/PyIndex.v"]
@@ -103,7 +103,7 @@ def gen(tier, rng):
     nfam = 1200 if tier == "quick" else 12000
     for _ in range(nfam):
         nd = rng.choice((2, 3, 3, 4))
-        fam = rng.choice(FAMILIES[nd][1:] + ["wrapped", "presliced"] + (["gwcs"] if nd <= 3 else []))
+        fam = rng.choice(FAMILIES[nd][1:] + ["wrapped", "presliced", "reordered", "reordered2", "compound"] + (["gwcs"] if nd <= 3 else []))
         shape = tuple(rng.sample([2, 3, 4, 5], nd))
         its = []
         for n in shape:
@@ -217,7 +217,7 @@ def run(case):
                 if Ellipsis in padded:
                     p = padded.index(Ellipsis)
                     padded = padded[:p] + [slice(None)] * (nd - len(padded) + 1) + padded[p + 1:]
-                f = wcs_lockstep_fail(cube, r, padded)
+                f = wcs_lockstep_fail(cube, r, padded, corr=family_corr(case["fam"], nd))
                 if f:
                     why.append(f)
     return {"out": out, "oracle": {"ok": not why, "why": "; ".join(why), "finding": None}}
